@@ -16,7 +16,12 @@ use crate::refmodel::cramtok::*;
 
 pub struct VcCram;
 
-pub const KINDS: [&str; 17] = [
+pub const KINDS: [&str; 21] = [
+    // non-ASCII text in every line role (title, one-space line, expectation, command)
+    "\u{65e5}\u{672c}\u{8a9e} title",
+    " \u{e9}",
+    "  \u{e9} out",
+    "  $ \u{e9}cho",
     "Title",
     "Other title",
     "# comment",
@@ -36,7 +41,7 @@ pub const KINDS: [&str; 17] = [
     "  a\tb (esc)",
 ];
 /// core alphabet for the deeper run
-pub const CORE: [usize; 8] = [0, 2, 3, 4, 6, 7, 11, 8];
+pub const CORE: [usize; 9] = [4, 6, 7, 8, 10, 11, 15, 12, 0];
 
 #[derive(Clone, Debug, Serialize, Deserialize, Hash)]
 pub struct CramCase {
@@ -95,7 +100,7 @@ impl Engine for VcCram {
             Tier::Quick => (4, 5),
             Tier::Thorough => (5, 7),
         };
-        format!("all line sequences of length <= {d} over {} line kinds (LF; CRLF and missing final newline below the maximum length), plus all sequences of length {}..={core_d} over the 8-kind core alphabet", KINDS.len(), d + 1)
+        format!("all line sequences of length <= {d} over {} line kinds (LF; CRLF and missing final newline below the maximum length), plus all sequences of length {}..={core_d} over the 9-kind core alphabet", KINDS.len(), d + 1)
     }
     fn rule(&self, _p: &str) -> String {
         "documents are distinct words by construction; non-trivial = the document contains at least one indented `$` line; outcome = (Ok/Err/panic, number of tests, number of orphan body lines)".into()
